@@ -266,21 +266,59 @@ pub fn run(ctx: &Ctx) -> i32 {
         let b = lines.iter().position(|l| l.contains("</EntradaGraficaLIDER>")).unwrap_or(lines.len());
         let cands: Vec<usize> = (a..b).filter(|i| lines[*i].split_once('=').map_or(false, |(_, v)| v.trim().parse::<f64>().map_or(false, |x| x != 0.0))).collect();
         let bad: Mutex<Vec<(usize, String)>> = Mutex::new(vec![]);
-        par_for(cands.len() as u64, |k| {
-            let i = cands[k as usize];
-            let (key, _) = lines[i].split_once('=').unwrap();
+        // (and with its sign changed: where the converted model makes the checker speak - a negative length, say - the
+        // model is still the model, and both tools are run and judged)
+        let warned: Mutex<Vec<(usize, String)>> = Mutex::new(vec![]);
+        par_for(2 * cands.len() as u64, |k| {
+            let i = cands[(k / 2) as usize];
+            let (key, val) = lines[i].split_once('=').unwrap();
             let mut ls: Vec<String> = lines.iter().map(|l| l.to_string()).collect();
-            ls[i] = format!("{}= 0", key);
+            ls[i] = if k % 2 == 0 { format!("{}= 0", key) } else { format!("{}= {}", key, -val.trim().parse::<f64>().unwrap_or(1.0)) };
             let t = ls.join("\n");
             if let corpus::Outcome::Ok(m) = corpus::convert_text(&t, false) {
                 let j = m.as_json().unwrap_or_default();
                 let back = Model::from_json(&j).ok().and_then(|m2| m2.as_json().ok());
                 if back.as_deref() != Some(j.as_str()) {
-                    bad.lock().unwrap().push((i, t));
+                    if k % 2 == 0 {
+                        bad.lock().unwrap().push((i, t));
+                    }
+                } else if !bemodel::check(&m).is_empty() {
+                    warned.lock().unwrap().push((i, t));
                 }
             }
         });
-        ctx.eval(cands.len() as u64);
+        ctx.eval(2 * cands.len() as u64);
+        let mut warned = warned.into_inner().unwrap();
+        warned.sort_by_key(|w| w.0);
+        warned.dedup_by_key(|w| w.0);
+        ctx.note("attributes_whose_change_makes_the_checker_speak", json!({"count": warned.len(), "tools_run_on": warned.len().min(6)}));
+        for (i, t) in warned.iter().take(6) {
+            let d = format!("{}/.cache/c01-warned/line{}", verif_dir(), i);
+            let _ = std::fs::remove_dir_all(&d);
+            std::fs::create_dir_all(&d).unwrap();
+            let f = format!("{}/p.ctehexml", d);
+            std::fs::write(&f, t).unwrap();
+            let lib = catch(std::panic::AssertUnwindSafe(|| hulc2model::collect_hulc_data(&d, false, false).ok().and_then(|m| m.as_json().ok()))).ok().flatten();
+            let case = |tool: &str| json!({"tool": tool, "project": src, "line": i + 1, "attribute": lines[*i].trim(), "changed": "sign or zero; the converted model has checker warnings"});
+            if let Some(lib) = lib {
+                ctx.eval(2);
+                ctx.nontriv(1);
+                let p = run_proc(&bin("hulc2model"), &[d.as_str()], 120);
+                let out = String::from_utf8_lossy(&p.stdout).to_string();
+                if p.code != Some(0) || Model::from_json(&out).ok().and_then(|m| m.as_json().ok()).as_deref() != Some(lib.as_str()) {
+                    ctx.violation("hulc2model:model-with-checker-warnings-not-exported", &format!("line {} ({}) changed: the library converts the project (the checker has remarks on the model), the tool exits {:?} and its output is not that model", i + 1, lines[*i].trim(), p.code), case("hulc2model"));
+                }
+                let outp = format!("{}/out.json", d);
+                let q = run_proc(&bin("thor"), &[f.as_str(), "-o", outp.as_str()], 120);
+                let got = std::fs::read_to_string(&outp).unwrap_or_default();
+                // (thor exports the plain conversion, without the pass over HULC's result files)
+                let plain = catch(std::panic::AssertUnwindSafe(|| hulc::ctehexml::parse_with_catalog_from_path(&f).ok().and_then(|d| Model::try_from(&d).ok()).and_then(|m| m.as_json().ok()))).ok().flatten();
+                if plain.is_some() && (q.code != Some(0) || Model::from_json(&got).ok().and_then(|m| m.as_json().ok()) != plain) {
+                    ctx.violation("thor:model-with-checker-warnings-not-exported", &format!("line {} ({}) changed: the library converts the project (the checker has remarks on the model), thor exits {:?} and the file named with -o does not hold that model", i + 1, lines[*i].trim(), q.code), case("thor"));
+                }
+            }
+            let _ = std::fs::remove_dir_all(&d);
+        }
         let bad = bad.into_inner().unwrap();
         ctx.note("zeroed_attributes", json!({"project": src, "attributes": cands.len(), "models_whose_json_does_not_load_back": bad.len()}));
         for (i, t) in bad.iter().take(8) {
@@ -344,7 +382,7 @@ pub fn run(ctx: &Ctx) -> i32 {
     }
     ctx.finish(
         "exploration",
-        "every project directory (12 shipped incl. VyP and GT system sections + synthetic directories written by the generator, with and without KyG/tbl files) x {default, --use-extra}: hulc2model is run as a process (stdout captured, exit status) and compared with hulc2model::collect_hulc_data computed in a monitored worker process (any byte on fd 1 during the library call is a violation); stdout must parse as a whole as one JSON document and load as a model whose re-serialisation is byte-identical to the library's and whose Debug text equals that of the library's in-memory model, also when the directory is named with a trailing slash or relative to the working directory, when RUST_LOG=trace is set, when the directory name holds blanks and non-ASCII letters, and when only one of the two result files exists; thor FILE -o OUT (OUT pre-existing and longer than any model) must leave exactly the library model JSON in the file and nothing on stdout; every scalar numeric attribute of the smallest shipped project set to 0 (library conversion in-process; where the model's JSON does not load back, the tool itself is run and judged); 7 kinds of non-project directory (empty, only a text file, a plain file, missing, truncated XML, project file in ISO-8859-1, project file that is a directory) x 2 flag sets must give a non-zero exit status and no JSON; the stdout monitor also runs over grey-box value substitutions (XML values replaced by the string literals the parser source branches on; 2 projects quick / all thorough) and, in thorough, over every 'remove one block' mutant of every shipped .ctehexml; non-trivial = convertible project run or non-project run",
+        "every project directory (12 shipped incl. VyP and GT system sections + synthetic directories written by the generator, with and without KyG/tbl files) x {default, --use-extra}: hulc2model is run as a process (stdout captured, exit status) and compared with hulc2model::collect_hulc_data computed in a monitored worker process (any byte on fd 1 during the library call is a violation); stdout must parse as a whole as one JSON document and load as a model whose re-serialisation is byte-identical to the library's and whose Debug text equals that of the library's in-memory model, also when the directory is named with a trailing slash or relative to the working directory, when RUST_LOG=trace is set, when the directory name holds blanks and non-ASCII letters, and when only one of the two result files exists; thor FILE -o OUT (OUT pre-existing and longer than any model) must leave exactly the library model JSON in the file and nothing on stdout; every scalar numeric attribute of the smallest shipped project set to 0 and to its negative (library conversion in-process; where the model's JSON does not load back, or where the checker has remarks on the converted model, the tools themselves are run and judged); 7 kinds of non-project directory (empty, only a text file, a plain file, missing, truncated XML, project file in ISO-8859-1, project file that is a directory) x 2 flag sets must give a non-zero exit status and no JSON; the stdout monitor also runs over grey-box value substitutions (XML values replaced by the string literals the parser source branches on; 2 projects quick / all thorough) and, in thorough, over every 'remove one block' mutant of every shipped .ctehexml; non-trivial = convertible project run or non-project run",
         true,
         json!({}),
     )
